@@ -130,6 +130,14 @@ def main():
                 mainfn = "" if fname == "main" else "fn main() -> i32\n{\n\treturn: helper()\n}\n"
                 expected_status[len(jobs)] = 3
                 jobs.append(("namesake", "run", [("m.pn", (o + fn if first else fn + o) + mainfn)]))
+    # private functions named like the C library functions that print!, format! and panic! call: the program's functions give
+    # way (a user function `write` used to push the library call to `write.1`, which nothing defines)
+    for names in (("write",), ("snprintf",), ("abort",), ("write", "snprintf", "abort")):
+        fns = "".join("fn %s(x: i32) -> i32\n{\n\treturn: x + %d\n}\n" % (nm, k + 1) for k, nm in enumerate(names))
+        calls = " + ".join("%s(10)" % nm for nm in names)
+        expected_status[len(jobs)] = sum(10 + k + 1 for k in range(len(names)))
+        jobs.append(("intrinsic-namesake", "run", [("m.pn", fns + "fn main() -> i32\n{\n\tvar n: i32 = %s;\n\tprint!(\"n = \", n, \"\\n\");\n"
+                                                      "\tif n == 0\n\t{\n\t\tpanic!(\"zero\\n\");\n\t}\n\treturn: n\n}\n" % calls)]))
     # every combination of `pub` / `extern` on the entry point and on a helper it calls: the entry point is externally
     # visible and uses the C convention whatever else it is declared as (Gen.linkage_spec, Gen.callconv_spec)
     for mflags in ("", "pub ", "extern ", "pub extern "):
@@ -152,7 +160,14 @@ def main():
             jobs.append(("corpus", "verify", [(os.path.basename(name), src)]))
             if thorough or rng.chance(1, 3):
                 jobs.append(("corpus-mutated", "verify", [(os.path.basename(name), faultgen.mutate(rng, src))]))
-    reqs = ["alpha\t%s\t%s" % (mode, "\t".join(x for nm, s in u for x in (nm, esc(s)))) for _, mode, u in jobs]
+    # multi-module sets for the wasm target as well (every module's own IR must be for that target)
+    for i in range(200 if thorough else 20):
+        r = rng.fork("wasm-multi%d" % i)
+        p = progen.Gen(r).program(size=3 + r.below(5))
+        kk = 2 + r.below(2)
+        files, where, pub, imports, refs = c12.split(p, r, kk, progen.Layout(r, plain=True))
+        jobs.append(("wasm-multi-module", "wasm", [files[j] for j in range(kk)]))
+    reqs = ["alpha\t%s\t%s" % (mode + "+mods" if mode == "wasm" else mode, "\t".join(x for nm, s in u for x in (nm, esc(s)))) for _, mode, u in jobs]
     h = run_harness(reqs)
     accepted = agreeing = 0
     for ji, ((tag, mode, u), rq, a) in enumerate(zip(jobs, reqs, h)):
@@ -166,6 +181,13 @@ def main():
             problems.append("the program exits with status %s, the members of its literals add up to %d" % (hd.get("status"), expected_status[ji]))
         if hd.get("verify") != "ok":
             problems.append("LLVM tools reject the IR: " + hd.get("verify", "?"))
+        if mode == "wasm" and hd.get("mods", "").startswith("h:"):
+            for k, mod_hex in enumerate(hd["mods"].split(";")):
+                mod_ir = bytes.fromhex(mod_hex[2:]).decode("utf-8", "replace")
+                tm = re.search(r'^target triple = "([^"]*)"', mod_ir, re.M)
+                if not tm or not tm.group(1).startswith("wasm32"):
+                    problems.append("module %d of a --wasm compilation is generated for the target %s" % (k, tm.group(1) if tm else None))
+                    break
         # calling conventions: every direct call uses the convention of its callee (a mismatch is undefined behaviour that
         # neither llvm-as nor the verifier reports); `main` and `extern` functions use the C convention, all others fastcc
         if hd.get("callcc", "ok") != "ok":
@@ -182,7 +204,7 @@ def main():
         for _, src in u:
             for (fname, is_pub, is_ext) in source_functions(src):
                 want_external = is_pub or fname == "main"
-                cands = [k for k in defs if k == fname or re.fullmatch(re.escape(fname) + r"\.\d+", k)]
+                cands = [k for k in defs if k == fname or re.fullmatch(re.escape(fname) + r"\.(\d+|fn)", k)]
                 if not cands:
                     problems.append("function %s is not defined in its module's IR" % fname)
                 elif want_external and (defs.get(fname) != "external" or linked.get(fname) != "external"):
